@@ -186,6 +186,7 @@ def main():
     progs = []
     corpus_dir = os.path.join(VERIF, 'corpus/C09')
     for f in sorted(os.listdir(corpus_dir)) if os.path.isdir(corpus_dir) else []:
+        if os.path.isdir(os.path.join(corpus_dir, f)): continue
         progs.append((os.path.join(corpus_dir, f), open(os.path.join(corpus_dir, f)).read(), {'corpus'}))
     for k in range(N):
         g = Gen(rng, exotic=(k % 5 == 0))
